@@ -65,7 +65,7 @@ func Sig(kind string, id primitives.MemberId, h primitives.BlockHeight, content 
 	return append([]byte{}, s[:6]...)
 }
 
-func seedDigest(content []byte) []byte {
+func SeedDigest(content []byte) []byte {
 	s := sha256.Sum256(append([]byte("SEED|"), content...))
 	return s[:4]
 }
@@ -73,7 +73,7 @@ func seedDigest(content []byte) []byte {
 // Share = digest(content) ++ keyed hash; the digest lets AggregateRandomSeed (which is not given the
 // content) produce the master signature over the same content.
 func Share(id primitives.MemberId, h primitives.BlockHeight, content []byte) []byte {
-	return append(append([]byte{}, seedDigest(content)...), Sig("R", id, h, content)...)
+	return append(append([]byte{}, SeedDigest(content)...), Sig("R", id, h, content)...)
 }
 
 func MasterSeedSig(h primitives.BlockHeight, digest []byte) []byte {
@@ -108,7 +108,7 @@ func (k *KeyManager) VerifyRandomSeed(h primitives.BlockHeight, c []byte, s *pro
 		return errors.New("no sender")
 	}
 	if len(s.MemberId()) == 0 { // master
-		if !bytes.Equal(MasterSeedSig(h, seedDigest(c)), s.Signature()) {
+		if !bytes.Equal(MasterSeedSig(h, SeedDigest(c)), s.Signature()) {
 			return errors.New("bad aggregated seed signature")
 		}
 		return nil
